@@ -475,7 +475,7 @@ class ActionPrebuilder(xtuml.tools.Walker):
         prev = None
         for child in node.children:
             act_smt = self.accept(child)
-            xtuml.relate(prev, act_smt, 661, 'succeeds')
+            xtuml.relate(prev, act_smt, 661, 'precedes')
             prev = act_smt
         
     def accept_ReturnNode(self, node):
